@@ -30,6 +30,38 @@ trait Shape:
     def area(self) -> int: ...
 
 
+trait Scaled:
+    def scale(self, k: int) -> int:
+        return k * 2
+
+
+class KAdopt with Scaled:
+    w: int
+
+    def own(self, p: int) -> int:
+        return self.w + p
+
+
+model MAdopt with Scaled:
+    w: int
+
+
+class KBase:
+    b: int
+
+    def base_m(self, p: int) -> int:
+        return self.b + p
+
+
+class KChild extends KBase:
+    c: int
+
+
+type Meters = newtype int:
+    def plus(self, p: int) -> int:
+        return p
+
+
 def ok_int(a: int) -> int:
     return a + 1
 
@@ -61,6 +93,11 @@ STMT_RULES = [
     ("wrong_type.annotated_assign_float_to_int", ["zq_a: int = 1 / 2"], 0, ["zq_a: float = 1 / 2"]),
     ("wrong_type.call_arg", ['zq_r = ok_int("s")'], 0, ["zq_r = ok_int(1)"]),
     ("wrong_type.method_arg", ["zq_p = P(x=1, name=\"n\")", 'zq_r = zq_p.calc("s")'], 1, ["zq_p = P(x=1, name=\"n\")", "zq_r = zq_p.calc(2)"]),
+    ("wrong_type.method_arg_class_own", ["zq_k = KAdopt(w=1)", 'zq_r = zq_k.own("s")'], 1, ["zq_k = KAdopt(w=1)", "zq_r = zq_k.own(2)"]),
+    ("wrong_type.method_arg_trait_default_via_class", ["zq_k = KAdopt(w=1)", 'zq_r = zq_k.scale("s")'], 1, ["zq_k = KAdopt(w=1)", "zq_r = zq_k.scale(2)"]),
+    ("wrong_type.method_arg_trait_default_via_model", ["zq_k = MAdopt(w=1)", 'zq_r = zq_k.scale("s")'], 1, ["zq_k = MAdopt(w=1)", "zq_r = zq_k.scale(2)"]),
+    ("wrong_type.method_arg_inherited", ["zq_k = KChild(b=1, c=2)", 'zq_r = zq_k.base_m("s")'], 1, ["zq_k = KChild(b=1, c=2)", "zq_r = zq_k.base_m(2)"]),
+    ("wrong_type.method_arg_newtype", ["zq_k = Meters(3)", 'zq_r = zq_k.plus("s")'], 1, ["zq_k = Meters(3)", "zq_r = zq_k.plus(2)"]),
     ("reassign_immutable.plain_same_scope", ["let zq = 1", "zq = 2"], 1, ["mut zq = 1", "zq = 2"]),
     ("reassign_immutable.inferred_same_scope", ["zq = 1", "zq = 2"], 1, ["mut zq = 1", "zq = 2"]),
     ("reassign_immutable.compound_same_scope", ["zq = 1", "zq += 2"], 1, ["mut zq = 1", "zq += 2"]),
@@ -183,6 +220,11 @@ BENIGN = [
     ["zb{n} = {n}"], ["mut zc{n} = 0", "zc{n} += 1"], ['zs{n} = "t{n}"', "println(zs{n})"], ["if 1 < 2:", "    pass"],
     ["for zj{n} in range(1):", "    pass"], ["zl{n} = [1, 2]", "println(len(zl{n}))"], ["println({n})"], ["zp{n} = P(x={n}, name=\"q\")", "println(zp{n}.calc(1))"],
     ["zm{n} = opt_int()", "match zm{n}:", "    Some(zo{n}) => println(zo{n})", "    None => println(0)"],
+    # expression forms with a body of their own: whatever state the checker keeps for the enclosing function must survive them
+    ["zf{n} = (zx{n}) => zx{n} + 1", "println(zf{n}(2))"], ["zg{n} = [zy{n} * 2 for zy{n} in range(3) if zy{n} > 0]", "println(len(zg{n}))"],
+    ["zh{n} = {{\"a\": 1}}", "println(len(zh{n}))"], ['println(f"v={{ok_int({n})}}")'], ["zt{n} = (1, \"a\")"],
+    ["mut zw{n} = 0", "while zw{n} < 1:", "    zw{n} += 1"], ["zk{n} = KAdopt(w={n})", "println(zk{n}.scale(2))"],
+    ["zr{n} = res_str_err()", "match zr{n}:", "    Ok(zv{n}) => println(zv{n})", "    Err(ze{n}) => println(ze{n})"],
 ]
 
 
